@@ -2,9 +2,14 @@
     benchtab.Builder, driven through cmd/benchstat's own pipeline, against
     (a) the model Builder.Add / ToTables (corr_ok) and
     (b) the specification computed directly from the list of projected
-        measurements by filtering (prop_ok). *)
+        measurements by filtering (prop_ok), with every cell's centre, interval,
+        comparison and printed delta against the first column's cell of its row
+        and the summary row judged by Corr/StatC14.v (declarative rule
+        Model/SummarySpec.v);
+    known_ok = prop_ok with exactly the recorded deviation C14_geomean_inf_order
+    admitted; a case (8 ...) = the real binary did not terminate. *)
 From Perf Require Import Base.Bytes Base.Sx Base.B64 Base.SxF Model.BenchTab.
-From Perf Require Corr.PipeC14.
+From Perf Require Corr.PipeC14 Corr.StatC14.
 
 Record ocell_obs := mkOC {
   o_r : N; o_c : N; o_sample : list b64; o_has_base : bool;
@@ -27,7 +32,10 @@ Record case := mkCase {
   k_obs : list otab_obs;
   k_osum : list (N * list b64 * (b64 * b64 * b64));               (* table, sample -> centre, lo, hi *)
   k_ocmp : list (N * list b64 * list b64 * (b64 * N * N * b64));  (* table, base sample, sample -> comparison *)
-  k_bin_csv : bool; k_bin_text : bool                         (* the benchstat binary printed what the in-process tables render to *)
+  k_bin_csv : bool; k_bin_text : bool;                        (* the benchstat binary printed what the in-process tables render to *)
+  (* per table: every cell's statistics, the delta and ratio STRINGS the binary printed (csv parsed back), the summary
+     row with all three warnings; oracles keyed by assumption and sample content (Corr/StatC14.v) *)
+  k_stat : list StatC14.stab; k_sosum : StatC14.sum_oracle; k_socmp : StatC14.cmp_oracle
 }.
 
 Definition as_meas (s : sx) : option meas :=
@@ -72,7 +80,7 @@ Definition as_f3 (s : sx) : option (b64 * b64 * b64) :=
 
 Definition decode (s : sx) : option case :=
   match s with
-  | SL [ms; rt; rr; rc; rv; fl; obs; osum; ocmp; b1; b2] =>
+  | SL [ms; rt; rr; rc; rv; fl; obs; osum; ocmp; b1; b2; stat; sosum; socmp] =>
       do ms <- as_list as_meas ms;
       do rt <- as_list as_N rt; do rr <- as_list as_N rr; do rc <- as_list as_N rc;
       do rv <- as_list (as_pair as_N (as_list as_b)) rv; do fl <- as_list as_b fl;
@@ -82,7 +90,9 @@ Definition decode (s : sx) : option case :=
                                    | SL [a; b; c] => do a <- as_pair as_N (as_list as_f64) a; do b <- as_list as_f64 b; do c <- as_cmp c; Some (a, b, c)
                                    | _ => None end) ocmp;
       do b1 <- as_bool b1; do b2 <- as_bool b2;
-      Some (mkCase ms rt rr rc rv fl obs osum ocmp b1 b2)
+      do stat <- as_list StatC14.as_stab stat;
+      do sosum <- StatC14.as_sum_oracle sosum; do socmp <- StatC14.as_cmp_oracle socmp;
+      Some (mkCase ms rt rr rc rv fl obs osum ocmp b1 b2 stat sosum socmp)
   | _ => None
   end.
 
@@ -204,13 +214,13 @@ Section WithCase.
     && Bool.eqb (negb (cs_has_summary e)) (s_warn_sum o)
     && Bool.eqb (cs_has_ratio e) (s_has_ratio o)
     && (let centres := somes (map (fun r => obs_centre t r (s_col o)) (t_rows t)) in
-        if s_has_summary o then geomean_close (s_summary o) centres else true)
+        if s_has_summary o then StatC14.geo_value_ok (s_summary o) centres else true)
     && (if s_has_ratio o then
           let ratios := somes (map (fun r =>
                 match obs_centre t r (s_col o), obs_centre t r first with
                 | Some a, Some b => Some (if b64_eq a b then b64_one else b64_div a b)
                 | _, _ => None end) (t_rows t)) in
-          geomean_close (s_ratio o) ratios
+          StatC14.geo_value_ok (s_ratio o) ratios
         else true).
 
   Fixpoint all2 {A B} (f : A -> B -> bool) (a : list A) (b : list B) : bool :=
@@ -220,20 +230,31 @@ Section WithCase.
     | _, _ => false
     end.
 
-  Definition tab_matches (e : otab) (o : otab_obs) : bool :=
+  (* [with_sums]: also compare the summary row with the MODEL's summarizeCol (corr_ok only; the
+     specification of the summary row is Model/SummarySpec.v, judged by Corr/StatC14.v) *)
+  Definition tab_matches (with_sums : bool) (e : otab) (o : otab_obs) : bool :=
     (ot_key e =? t_key o)%N
     && nlist_eqb (ot_rows e) (t_rows o) && nlist_eqb (ot_cols e) (t_cols o)
     && all2 (cell_matches (t_key o)) (ot_cells e)
          (* observed cells arrive in map order: arrange them row-major like the expectation *)
          (flat_map (fun r => flat_map (fun cl => filter (fun o => (o_r o =? r)%N && (o_c o =? cl)%N) (t_cells o)) (t_cols o)) (t_rows o))
     && Nat.eqb (length (ot_cells e)) (length (t_cells o))
-    && (match t_cols o with
+    && (negb with_sums ||
+        match t_cols o with
         | first :: _ => all2 (sum_matches o first) (ot_sums e) (t_sums o)
         | [] => true
         end).
 
-  Definition corr_ok : bool := all2 tab_matches expected_model (k_obs c).
-  Definition prop_ok : bool := all2 tab_matches expected_spec (k_obs c) && k_bin_csv c && k_bin_text c.
+  Definition corr_ok : bool := all2 (tab_matches true) expected_model (k_obs c).
+  (** the specification: cells, samples, vary-warnings straight from the measurement list; every cell's centre,
+      interval, comparison and DELTA against the first column's cell of its row, and the summary row by the
+      declarative rule (Corr/StatC14.v); the binary printed what the observed tables render to.
+      [relax] = the recorded deviation C14_geomean_inf_order admitted, nothing else *)
+  Definition judge (relax : bool) : bool :=
+    all2 (tab_matches false) expected_spec (k_obs c) && k_bin_csv c && k_bin_text c
+    && StatC14.stats_ok relax (k_sosum c) (k_socmp c) expected_spec (k_stat c).
+  Definition prop_ok : bool := judge false.
+  Definition known_ok : bool := judge true.
 End WithCase.
 
 (** cases of the second kind (tag 7: flag strings + file texts against the
@@ -241,9 +262,11 @@ End WithCase.
 Definition run_case (s : sx) : N :=
   match s with
   | SL (SZ 7 :: _) => PipeC14.run_case s
+  (* tag 8: the real binary did not terminate on this input within the watchdog's time and memory limits *)
+  | SL (SZ 8 :: _) => code_of3 false false false
   | _ =>
       match decode s with
-      | Some c => code_of (corr_ok c) (prop_ok c)
+      | Some c => code_of3 (corr_ok c) (prop_ok c) (known_ok c)
       | None => code_undecodable
       end
   end.
